@@ -169,6 +169,9 @@ class ModelEval(Evaluator):
                     return Marker("pkg", m)
                 if a == "__name__":
                     return base.data[0].name
+                if a == "__new__":
+                    # object.__new__ (the package defines no __new__ of its own: method() found none): a bare instance
+                    return Marker("pyfunc", lambda c, *args, **kw: PyObj(c.data[0]) if isinstance(c, Marker) and c.kind == "pkg" else (_ for _ in ()).throw(Unsupported("__new__ of %r" % (c,))))
             if base.kind == "ext":
                 return Marker("ext", base.data[0] + "." + a)
             if base.kind == "super":
@@ -700,7 +703,32 @@ class ModelEval(Evaluator):
         return None
 
     # ------------------------------------------------------------------ statements
+    IDUNDER = {ast.Add: "__iadd__", ast.Sub: "__isub__", ast.Mult: "__imul__", ast.Div: "__itruediv__", ast.Pow: "__ipow__",
+               ast.BitAnd: "__iand__", ast.BitOr: "__ior__", ast.BitXor: "__ixor__", ast.FloorDiv: "__ifloordiv__", ast.Mod: "__imod__"}
+
     def exec_stmt(self, st):
+        if isinstance(st, ast.AugAssign):
+            # x op= y: the in-place method of x when it has one (the object is UPDATED and stays shared), x = x op y otherwise
+            cur = self.ev(st.target)
+            name = self.IDUNDER.get(type(st.op))
+            if name is not None:
+                if isinstance(cur, PyObj):
+                    m = self.tree.method(cur._cls, name)
+                    if m is not None:
+                        v = self.ev(st.value)
+                        res = self.invoke(m, [cur, v], {}, st)
+                        if not (isinstance(res, Marker) and res.kind == "builtin" and res.data and res.data[0] == "NotImplemented"):
+                            self.assign(st.target, res)
+                            return
+                        self.assign(st.target, self.binop(st, st.op, cur, v))
+                        return
+                elif isinstance(cur, (list, set, dict)) or (isinstance(cur, Model) and hasattr(type(cur), name)):
+                    v = self.ev(st.value)
+                    import operator as _op
+                    res = getattr(_op, name)(cur, v)
+                    self.assign(st.target, res)
+                    return
+            return super().exec_stmt(st)
         if isinstance(st, ast.Try):
             try:
                 self.exec_block(st.body)
